@@ -102,6 +102,10 @@ FAMILIES = [
     "nest3_pre@sc_plus", "nestlead_pre@sc_plus", "nestlead_textarea@sc_plus", "pre_chain@sc_plus", "style_head@sc_plus",
     "chain_text@sc_plus",
     "nest3_pre@empty", "nestlead_rt@empty", "chain_text@empty", "style_head@empty",
+    # trees whose elements are instances of (empty) user subclasses — element_classes={Tag: MyTag, NavigableString: MyStr, …},
+    # a BeautifulSoup subclass as the document — or a mix of library classes and subclasses
+    "chain#sub", "chain_text#sub", "chain_sibling#sub", "pre_nested#sub", "twins#sub", "chain#mixed", "chain_text#mixed",
+    "builderless#sub",
     "twins",            # <a> <a><a>…x…</a></a> <a><a>…x…</a></a> </a>   two identical deep chains side by side
     "builderless",      # Tag(name="a") nested by hand (known_xml is None), trailing text
 ]
@@ -114,8 +118,47 @@ CONFIG_NAMES = ("default", "pw_plus", "sc_plus", "empty")
 
 
 def split_family(fam: str):
+    fam = fam.partition("#")[0]
     base, _, cfg = fam.partition("@")
     return base, (cfg or "default")
+
+
+def class_mode(fam: str) -> str:
+    """element classes of the tree: "" = the library's own classes; "sub" = every element is an instance of an (empty) user
+    subclass — BeautifulSoup, Tag, NavigableString, Comment —, as `element_classes={Tag: MyTag, …}` makes them; "mixed" =
+    library classes and subclasses alternate from element to element (trees assembled through the API)"""
+    return fam.partition("#")[2]
+
+
+_USER = {}
+CLASS_MODE = [""]          # set once per worker process from its family
+
+
+def user_classes():
+    """empty user subclasses, importable by name from this module (so that documents made of them pickle)"""
+    if not _USER:
+        from bs4 import BeautifulSoup
+        from bs4.element import Tag, NavigableString, Comment
+        for nm, base in (("MySoup", BeautifulSoup), ("MyTag", Tag), ("MyStr", NavigableString), ("MyComment", Comment)):
+            cls = type(nm, (base,), {"__module__": __name__, "__doc__": "a user subclass that changes nothing"})
+            globals()[nm] = cls
+            _USER[nm] = cls
+    return _USER
+
+
+def soup_class():
+    if CLASS_MODE[0] == "sub":
+        return user_classes()["MySoup"]
+    from bs4 import BeautifulSoup
+    return BeautifulSoup
+
+
+def class_kwargs() -> dict:
+    if CLASS_MODE[0] != "sub":
+        return {}
+    from bs4.element import Tag, NavigableString, Comment
+    u = user_classes()
+    return {"element_classes": {Tag: u["MyTag"], NavigableString: u["MyStr"], Comment: u["MyComment"]}}
 
 
 def config_kwargs(name: str) -> dict:
@@ -431,9 +474,16 @@ def build_raw(ev, builderless: bool) -> H:
         root = Tag(name="root")
         builder = None
     else:
-        soup = BeautifulSoup("", "html.parser")
+        soup = soup_class()("", "html.parser", **class_kwargs())
         root = soup
         builder = soup.builder
+    mode = CLASS_MODE[0]
+    u = user_classes() if mode else {}
+    made = [0]
+
+    def pick(lib, user):
+        made[0] += 1
+        return u[user] if mode == "sub" or (mode == "mixed" and made[0] % 2) else lib
     h.soup, h.root = soup, root
     stack = [root]
     deepest = [0, None]
@@ -447,17 +497,17 @@ def build_raw(ev, builderless: bool) -> H:
         parent = stack[-1]
         if e[0] == "o":
             if builderless:
-                el = Tag(name=e[1], attrs=dict(e[2]))
+                el = pick(Tag, "MyTag")(name=e[1], attrs=dict(e[2]))
             else:
-                el = Tag(None, builder, e[1], None, None, builder.attribute_dict_class(**e[2]))
+                el = pick(Tag, "MyTag")(None, builder, e[1], None, None, builder.attribute_dict_class(**e[2]))
             if e[3] is not None:
                 levels.append(el)
         else:
             if len(e) > 2 and e[2] == "Comment":
                 from bs4.element import Comment
-                el = Comment(e[1])
+                el = pick(Comment, "MyComment")(e[1])
             else:
-                el = NavigableString(e[1])
+                el = pick(NavigableString, "MyStr")(e[1])
             if len(stack) >= deepest[0]:
                 deepest[0], deepest[1] = len(stack), el
         elems.append(el)
@@ -493,7 +543,7 @@ def build_parsed(ev, cfg=None) -> H:
     h.extra = []
     h.cfg = cfg or {}
     h.markup = events_markup(ev)
-    soup = BeautifulSoup(h.markup, "html.parser", **h.cfg)
+    soup = soup_class()(h.markup, "html.parser", **h.cfg, **class_kwargs())
     h.soup = h.root = soup
     # the chain levels, found iteratively along the element chain
     want = [e for e in ev if e[0] == "o"]
@@ -568,9 +618,9 @@ def measure(fn, h):
 def _new_tag(h, name="n"):
     from bs4.element import Tag
     if h.soup is not None:
-        t = h.soup.new_tag(name)
+        t = h.soup.new_tag(name)          # honours element_classes
     else:
-        t = Tag(name=name)
+        t = (user_classes()["MyTag"] if CLASS_MODE[0] else Tag)(name=name)
     h.extra.append(t)
     return t
 
@@ -654,17 +704,16 @@ def _op_pickle_tag(h):
 
 def _strainer_parse(h):
     from bs4 import BeautifulSoup, SoupStrainer
-    return BeautifulSoup(h.markup, "html.parser", parse_only=SoupStrainer(["a", "div", "pre", "rt"]), **h.cfg)
+    return soup_class()(h.markup, "html.parser", parse_only=SoupStrainer(["a", "div", "pre", "rt"]), **h.cfg, **class_kwargs())
 
 
 def _parse(h):
-    from bs4 import BeautifulSoup
-    return BeautifulSoup(h.markup, "html.parser", **h.cfg)
+    return soup_class()(h.markup, "html.parser", **h.cfg, **class_kwargs())
 
 
 def _parse_bytes(h):
     from bs4 import BeautifulSoup
-    return BeautifulSoup(h.markup.encode("utf8"), "html.parser", **h.cfg)
+    return soup_class()(h.markup.encode("utf8"), "html.parser", **h.cfg, **class_kwargs())
 
 
 class InvariantBroken(Exception):
@@ -686,7 +735,7 @@ def _parse_invariant(h):
                 raise InvariantBroken("C11-invariant: side stack %r is not the tag stack filtered by name %r (open tags: %s)"
                                      % ([t.name for t in side], [t.name for t in want], len(soup.tagStack)))
 
-    class Checked(BeautifulSoup):
+    class Checked(soup_class()):
         def pushTag(self, tag):
             r = BeautifulSoup.pushTag(self, tag)
             check(self)
@@ -696,7 +745,7 @@ def _parse_invariant(h):
             r = BeautifulSoup.popTag(self)
             check(self)
             return r
-    return Checked(h.markup, "html.parser", **h.cfg)
+    return Checked(h.markup, "html.parser", **h.cfg, **class_kwargs())
 
 
 class StateLeak(Exception):
@@ -735,7 +784,7 @@ def _parse_state_clean(h):
     the document object, and the state `__getstate__` hands to pickle free of Tag / NavigableString objects (in any
     container, or behind the builder)."""
     from bs4 import BeautifulSoup
-    soup = BeautifulSoup(h.markup, "html.parser", **h.cfg)
+    soup = soup_class()(h.markup, "html.parser", **h.cfg, **class_kwargs())
     bad = []
     if soup.preserve_whitespace_tag_stack:
         bad.append("preserve_whitespace_tag_stack = %r" % [t.name for t in soup.preserve_whitespace_tag_stack])
@@ -1053,6 +1102,10 @@ def is_markup_only(fam: str) -> bool:
 
 def applicable(op: str, fam: str, build: str) -> bool:
     kind = OPS[op][0]
+    mode = class_mode(fam)
+    fam = fam.partition("#")[0]
+    if mode == "mixed" and build == "parsed":
+        return False                         # a parse makes every element of one class
     if is_markup_only(fam):
         return build == "parsed" and kind in ("markup", "doc")
     if op == "api_build":
@@ -1097,7 +1150,8 @@ def worker_main():
     import bs4
     assert os.path.realpath(bs4.__file__).startswith(os.path.realpath(repo)), (bs4.__file__, repo)
     fam = job["family"]
-    builderless = fam == "builderless"
+    builderless = split_family(fam)[0] == "builderless"
+    CLASS_MODE[0] = class_mode(fam)
     cfg = config_kwargs(split_family(fam)[1])
     out = sys.stdout
 
@@ -1211,10 +1265,13 @@ HISTORY_FAMILIES_QUICK = ("chain", "chain_text", "chain_sibling", "attrs_same", 
 LIGHT_FAMILIES_QUICK = ("attrs_multi", "chain_comment", "chain_entity", "chain_void", "lead_text", "alternating", "attrs_distinct",
                         "pre_chain", "rt_nested")
 CORE_OPS = ("decode", "decode_mid", "prettify", "encode", "hash", "copy", "deepcopy", "copy_mid", "get_text", "stripped_strings",
-            "string_getter", "find_all_name_string", "find_all_attrs_string", "find_all", "find_parents", "find_all_next", "smooth",
+            "string_getter", "string_getter_mid", "find_all_name_string", "find_all_attrs_string", "find_all_true_string", "find_string",
+            "find_all", "getattr_find", "find_parents", "find_all_next", "smooth",
             "extract_mid", "append_inner", "insert_after_inner", "insert_before_inner", "replace_with_mid", "unwrap_mid", "wrap_mid",
             "decompose_mid", "clear_top", "string_setter_mid", "move_subtree", "extend_mid", "index", "str_extract", "str_replace_with",
             "str_find_parents", "str_output_ready", "str_wrap", "after_move_decode", "after_unwrap_copy", "eq_copy")
+CORE_DOC_OPS = ("doc_decode", "doc_prettify", "doc_copy", "doc_deepcopy", "doc_pickle", "doc_pickle_copy", "doc_pickle_py", "doc_get_text",
+                "doc_find_all", "doc_smooth")
 HISTORY_OPS_QUICK_RANDOM = ("nc_replace_with", "nc_insert_before", "nc_append_to_parent", "nc_wrap_in_copy", "tw_index", "tw_extract",
                             "tw_replace_with_sibling", "tw_decode", "tw_smooth", "tw_insert_after")
 
@@ -1223,7 +1280,9 @@ def _jobs_for(fam: str, thorough: bool = True):
     jobs = []
     for op, v in OPS.items():
         kind = v[0]
-        if not thorough and fam in LIGHT_FAMILIES_QUICK and kind in ("tree", "rec") and op not in CORE_OPS:
+        if not thorough and (fam in LIGHT_FAMILIES_QUICK or "#" in fam) and kind in ("tree", "rec") and op not in CORE_OPS:
+            continue
+        if not thorough and "#" in fam and kind == "doc" and op not in CORE_DOC_OPS:
             continue
         if not thorough and op.startswith(("nc_", "tw_")):
             if fam.startswith("random:"):
@@ -1296,7 +1355,7 @@ def classify(op: str, fam: str) -> str | None:
         return "C11-string-getter-recursive"
     if op in LINKED_OPS:
         return "C11-getstate-links"
-    if fam == "builderless" and receiver(op) in ("mid", "inner") and OPS[op][0] == "tree":
+    if split_family(fam)[0] == "builderless" and receiver(op) in ("mid", "inner") and OPS[op][0] == "tree":
         return "C11-is-xml-recursive"
     return None
 
@@ -1332,7 +1391,7 @@ def model_growth(fams, ops_by_fam):
         ops = ops_by_fam[fam]
         if not ops:
             continue
-        bl = fam == "builderless"
+        bl = split_family(fam)[0] == "builderless"
         for n in MODEL_D:
             ev = family_events(fam, n)
             toks = events_tokens(ev, bl)
@@ -1633,7 +1692,7 @@ def run(ctx):
     def deep_of(fam):
         # copying a builder-less tree costs O(depth) per element (_is_xml walks up to the root): half the depth, still
         # well beyond the recursion limit
-        return [x // 2 for x in deep_all] if fam in ("builderless", "repeated") else deep_all
+        return [x // 2 for x in deep_all] if split_family(fam)[0] in ("builderless", "repeated") else deep_all
     nrand = ctx.n(2, 10)
     r = ctx.rng("families")
     fams = list(FAMILIES) + ["random:%d:%d" % (ctx.seed, r.randrange(10 ** 6)) for _ in range(nrand)]
